@@ -1,6 +1,6 @@
-from . import evaluate, numeric
+from . import evaluate, numeric, structure
 
-MODULES = [evaluate, numeric]
+MODULES = [evaluate, numeric, structure]
 
 
 def all_specs(prog, tier):
